@@ -125,6 +125,12 @@ func discharge(o *Oblig, opts solveOpts) {
 				definite = &aa
 				if !opts.allAgree {
 					cancel()
+				} else {
+					// thorough tier: the other solvers get a grace period to agree or disagree
+					go func() {
+						time.Sleep(10 * time.Second)
+						cancel()
+					}()
 				}
 			} else if definite.result != a.result {
 				o.Result = "error"
